@@ -13,6 +13,7 @@ import WzVerif.Lemmas.RoutingBuild
 import WzVerif.Lemmas.RoutingRedirect
 import WzVerif.Lemmas.RoutingRender3
 import WzVerif.Lemmas.RoutingMatchBuild
+import WzVerif.Lemmas.RoutingPlumb
 namespace Wz.Props.C04
 open Wz Wz.Routing
 
@@ -250,6 +251,79 @@ example : (match mkMap {} [exSpec, { toks := [.slash, .lit "other".toList, .slas
        | _ => false)
     | none => false) = true := by decide +kernel
 
+theorem bindRule_spec {cfg : MapCfg} {i : Nat} {sp : RuleSpec} {r : Rule} (h : bindRule cfg i sp = some r) : r.spec = sp := by
+  simp only [bindRule] at h
+  split at h
+  · cases h; rfl
+  · cases h
+
+/-- **match_build_url_partial.** `match_build_partial` on the full URL text `MapAdapter.build` returns.
+Whatever form `build` chooses — relative (`script_root + path[?query]`) or external
+(`[scheme:]//host + script_root + path[?query]`, forced or because the rule lives on another subdomain) —
+a server reading that URL back (`readBuilt`: host -> subdomain of the adapter, script root stripped,
+query / fragment cut, percent-decoding) and matching the resulting PATH_INFO gets the rule the URL was
+built from, with exactly the built values plus the rule's defaults.
+Additional hypotheses over `match_build_partial`: the adapter's script root is as `MapAdapter` stores it
+(`ScriptOK`), host and server name are plain, the built text has no '?' / '#' (`UrlsNoCut`: true for
+quoted text, numbers and UUIDs), the rule string starts with '/', and neither the built path nor its
+decoding starts with '//'. -/
+theorem match_build_url_partial {cfg : MapCfg} {specs : List RuleSpec} {m : RMap} (hm : mkMap cfg specs = some m)
+    (hhm : m.cfg.hostMatching = false) {a : Adapter} (hs : ScriptOK a) (hserver : a.serverName ≠ [])
+    {r : Rule} (hr : r ∈ m.rules) (hbo : r.spec.buildOnly = false) {i : Nat} {sp : RuleSpec}
+    (hbind : bindRule cfg i sp = some r)
+    (hnodom : (if cfg.hostMatching then sp.domain.getD [] else sp.domain.getD cfg.defaultSubdomain) = [])
+    (values : List (Str × Value)) {ep : Str} {method : Option Str} {fe au : Bool} {dom u : Str} {w : Bool} {upath : Str}
+    (hp : partialBuild m.cfg a m.rules ep values method au = .ok (some (dom, u, w)))
+    (hb : r.build m.cfg values au = .ok (dom, u))
+    (hgram : GramToks r.pathToks) (hslash : ∃ toks', r.pathToks = .slash :: toks')
+    (hbuild : buildSide r values (traceToks r.pathToks) = .ok upath)
+    (hclosed : UrlsClosed r values r.pathToks) (hnocut : UrlsNoCut r values r.pathToks)
+    (hdom : ∀ ts, valueTexts r values r.pathToks = some ts →
+      IsoNoSlash r.pathToks ts ∧ PathTailOK r.pathToks ts ∧ AllAccept ((tokConvs r.pathToks).map Conv.kind) ts)
+    (hrt : VarsRoundTrip r values r.pathToks)
+    (hsingle : ∀ t, upath = '/' :: t → t.head? ≠ some '/' ∧ (unquote t).head? ≠ some '/')
+    (hhost : ∀ c ∈ getHost false a (some dom), c ≠ '/')
+    {q : Req} (hok : ruleOK q r = true) (mg rd : Bool) (halias : (r.alias && rd) = false)
+    (hothers : ∀ r' ∈ m.rules, r' ≠ r → ∀ via, walkVia via r'.parts (segments [] (unquote upath)) = none) :
+    ∃ url pathInfo, adapterBuild m.cfg a m.rules ep values method fe au = .ok url ∧
+      readBuilt m.cfg a url = some ({ a with subdomain := some dom }, pathInfo) ∧
+      matchSM m.root mg rd q [] (pathPart pathInfo) = .ok r (dictUpdate (builtPairs r values r.pathToks) r.defaults) := by
+  have hcfg : m.cfg = cfg := (mkMap_built hm).cfg_eq
+  -- the path text inside u
+  obtain ⟨upath', hup', hform⟩ := rule_build_path hb
+  rw [hbuild] at hup'
+  injection hup' with hup'
+  subst hup'
+  obtain ⟨toks', htoks⟩ := hslash
+  obtain ⟨t, ht⟩ : ∃ t, upath = '/' :: t := by rw [htoks] at hbuild; exact buildSide_slash hbuild
+  obtain ⟨hthead, hdechead⟩ := hsingle t ht
+  have hnc : noCut t := by
+    have := buildSide_noCut r values r.pathToks hbuild hnocut
+    intro c hc; exact this c (by rw [ht]; exact List.mem_cons_of_mem _ hc)
+  obtain ⟨qq, hu, hq⟩ : ∃ qq, u = '/' :: t ++ qq ∧ (qq = [] ∨ qq.head? = some '?') := by
+    rcases hform with h | ⟨params, h⟩
+    · exact ⟨[], by rw [h, ht]; simp, .inl rfl⟩
+    · exact ⟨'?' :: params, by rw [h, ht], .inr rfl⟩
+  rw [hu] at hp
+  obtain ⟨url, hbuilt, hread⟩ := readBuilt_adapterBuild (fe := fe) hhm hs hserver hp hhost hnc hthead hq
+  refine ⟨url, '/' :: unquote t, hbuilt, hread, ?_⟩
+  -- decoding: unquote upath = '/' :: unquote t
+  obtain ⟨ts, text, _, hrender, hcl⟩ := buildSide_closed r values r.pathToks hbuild hclosed
+  rw [htoks] at hrender
+  simp only [renderToks, Option.map_eq_some_iff] at hrender
+  obtain ⟨text', _, htext⟩ := hrender
+  subst htext
+  rw [ht] at hcl
+  have hcl' := hcl.tail_slash
+  have hdec : unquote upath = '/' :: unquote t := by rw [ht, hcl.unquote, hcl'.unquote]
+  have hpp : pathPart ('/' :: unquote t) = unquote upath := by
+    rw [hdec]
+    simp only [pathPart, List.isEmpty_cons, Bool.false_eq_true, if_false]
+    have : lstripChar '/' ('/' :: unquote t) = lstripChar '/' (unquote t) := by simp [lstripChar]
+    rw [this, lstripChar_of_head hdechead]
+  rw [hpp]
+  exact match_build_partial hm hr hbo hbind hnodom values hgram hbuild hclosed hdom hrt hok mg rd halias hothers
+
 /-- **build_match_fixpoint_partial (rule level).** Rebuilding a rule's path from what the match of its own
 URL returns — the built values per variable plus the rule's defaults (`match_build_partial`) — gives the
 same text: `build(match(build(values))) = build(values)` for the rule that was selected. -/
@@ -258,6 +332,32 @@ theorem build_match_fixpoint_partial (r : Rule) (values : List (Str × Value)) :
       buildSide r values (traceToks r.pathToks) :=
   buildSide_congr r _ values r.pathToks (fun n hn => buildValue_matched r values r.pathToks n hn)
 
+def specsF04b : List RuleSpec :=
+  [ { toks := [.slash, .lit "x".toList], endpoint := "e".toList, defaults := [("page".toList, .int 1)] },
+    { toks := [.slash, .lit "y".toList, .slash, .var (.int 0 false none none) "page".toList], endpoint := "e".toList,
+      defaults := [("lang".toList, .str "en".toList)] } ]
+
+/-- **F04b (witness): the converse law fails at map level when an endpoint's rules have unequal argument
+sets.** On the unchanged code, with `Map([Rule('/x', endpoint='e', defaults={'page': 1}),
+Rule('/y/<int:page>', endpoint='e', defaults={'lang': 'en'})])` (distinct literal first segments):
+`match('/x') = ('e', {'page': 1})`, and `build('e', {'page': 1}) = '/y/1'`, not `/x` — `build()` orders the
+endpoint's rules by number of arguments first and `suitable_for` accepts the rule whose extra
+argument is a default. `build_match_fixpoint_partial` is therefore about the rule that was selected;
+re-selection needs the endpoint's rules to have equal argument sets. -/
+theorem build_match_fixpoint_map_level_false :
+    (match mkMap { redirectDefaults := false } specsF04b with
+     | some m =>
+       let a : Adapter := { serverName := "example.org".toList, scriptName := "/".toList, subdomain := some [],
+                            urlScheme := "http".toList, defaultMethod := "GET".toList, queryArgs := .none }
+       (match matchAdapter m a "/x".toList none .none none with
+        | .matched r vals =>
+          r.idx == 0 && vals == [("page".toList, Value.int 1)] &&
+          (match adapterBuild m.cfg a m.rules r.endpoint vals none false true with
+           | .ok u => u == "/y/1".toList
+           | .error _ => false)
+        | _ => false)
+     | none => false) = true := by decide +kernel
+
 -- OPEN (P1): match_build stated on whole URLs — matchAdapter (readBuilt (adapterBuild endpoint vals)) = matched r vals —
 -- and build_match_fixpoint — build (match (build r vals)) = build r vals.
 -- Proved here: the value-level halves (`unquote_quote` for literal text and string/path values,
@@ -265,10 +365,11 @@ theorem build_match_fixpoint_partial (r : Rule) (values : List (Str × Value)) :
 -- (`rule_build_match_partial`: the rule's own parts admit what the rule builds, with the decoded
 -- converter outputs as groups; isolating converters and one path converter), the selection of a suitable
 -- rule by `MapAdapter.build` (`build_selects_suitable_rule`) and the map-level law on the decoded path
--- (`match_build_partial`). Missing: the URL plumbing around the path (script root, host -> subdomain,
--- cutting the query) which is string surgery validated by the stream, and, for the converse law at map
--- level, that `MapAdapter.build` selects the same rule again for the matched values
--- (`build_match_fixpoint_partial` is the law for the selected rule itself). Both laws are checked on the real code and on the model by
+-- (`match_build_partial`), and the same on the full URL text `MapAdapter.build` returns, relative or
+-- external, with or without query (`match_build_url_partial`). Missing, for the converse law at map
+-- level, that `MapAdapter.build` selects the same rule again for the matched values — false in general
+-- (F04b, `build_match_fixpoint_map_level_false`); `build_match_fixpoint_partial` is the law for the
+-- selected rule itself. Both laws are checked on the real code and on the model by
 -- stream `build-match` (oracle: match(unquote(build)) = (endpoint, values) and build(match(url)) = url).
 
 end Wz.Props.C04
